@@ -89,6 +89,8 @@ class Model:
         else:
             w.slots[0] = pf.CellVariable(w.mesh, self.pat[0].copy(), pf.BoundaryConditions(w.mesh))
         w.slots[0]._mc_seen = 0
+        w.slots[0]._mc_group = 1
+        w.ngroups = 1
         w.slots[0]._mc_cleared_by_other = False
         w.slots[0]._mc_applied_bc = self._bc_bytes(w.slots[0].BCs)
         for op in history[1:]:
@@ -182,6 +184,7 @@ class Model:
             res._mc_seen = self._epoch(res.BCs)
             res._mc_cleared_by_other = False
             res._mc_applied_bc = self._bc_bytes(res.BCs)
+            res._mc_group = src._mc_group
             # the result shares the BC object and its apply_BCs cleared the bits
             for o in list(w.slots) + [src]:
                 if o is not None and o is not res and o.BCs is res.BCs and getattr(o, "_mc_seen", 0) < self._epoch(o.BCs):
@@ -191,6 +194,10 @@ class Model:
             nv._mc_seen = self._epoch(nv.BCs)
             nv._mc_cleared_by_other = False
             nv._mc_applied_bc = self._bc_bytes(nv.BCs)
+            # which variables are *supposed* to share a BC object: only 'share' (BCs passed to the
+            # constructor) and results of solveExplicitPDE
+            w.ngroups = getattr(w, "ngroups", 1) + 1
+            nv._mc_group = w.slots[t]._mc_group if p[2] == "share" else w.ngroups
 
     def apply(self, w, op):
         info = self._shadow_before(w, op)
@@ -417,6 +424,12 @@ class Model:
             if np.shares_memory(np.asarray(v0._value), np.asarray(v1._value)):
                 F.append({"key": "C09:I5:values_share_memory", "msg": "the two variables share value storage after %s" % history,
                           "detail": {"history": history}})
+            expect_shared = getattr(v0, "_mc_group", 0) == getattr(v1, "_mc_group", 1)
+            if (v0.BCs is v1.BCs) != expect_shared:
+                F.append({"key": "C09:I5:bc_object_%s" % ("unexpectedly_shared" if v0.BCs is v1.BCs else "unexpectedly_separate"),
+                          "msg": "after history %s on %s the two variables %s one BoundaryConditions object, which the operations that created them do not imply"
+                                 % (history, gid, "share" if v0.BCs is v1.BCs else "do not share"),
+                          "detail": {"history": history, "grid": gid}})
             if v0.BCs is not v1.BCs:
                 for side in ("left", "right", "bottom", "top", "back", "front"):
                     for c in ("_a", "_b", "_c"):
